@@ -200,7 +200,7 @@ func workerMain(a workerArgs) int {
 		seed := simkit.RunSeed(a.Seed, a.Prop, uint64(i))
 		c := simkit.NewChoices(seed)
 		c.Limit = traceLimit
-		x := &simkit.Ctx{Stats: stats, Thorough: a.Thorough, Skip: skip}
+		x := &simkit.Ctx{Stats: stats, Thorough: a.Thorough, Skip: skip, Beat: prog.beat}
 		v := cfg.Engine.Run(c, x)
 		stats.Runs++
 		stats.Steps += x.Clock
@@ -214,7 +214,7 @@ func workerMain(a workerArgs) int {
 			stats.Frozen = true
 			c2 := simkit.NewChoices(seed)
 			c2.Limit = traceLimit
-			x2 := &simkit.Ctx{Stats: stats, Thorough: a.Thorough, Skip: skip}
+			x2 := &simkit.Ctx{Stats: stats, Thorough: a.Thorough, Skip: skip, Beat: prog.beat}
 			v2 := cfg.Engine.Run(c2, x2)
 			stats.Frozen = false
 			res.Rechecked++
@@ -263,7 +263,7 @@ func shrinkAndSave(cfg *propCfg, a workerArgs, run uint64, trace []uint64, v *si
 		}
 		c := simkit.ReplayChoices(t)
 		c.Limit = traceLimit
-		x := &simkit.Ctx{Stats: stats, Thorough: a.Thorough, Skip: skip}
+		x := &simkit.Ctx{Stats: stats, Thorough: a.Thorough, Skip: skip, Beat: prog.beat}
 		nv := cfg.Engine.Run(c, x)
 		if nv != nil && nv.Class() == class && !c.Overflow {
 			best = nv
@@ -354,7 +354,7 @@ func replayMain(path, progressPath, traceOut string) int {
 		}
 	}
 	st := simkit.NewStats()
-	x := &simkit.Ctx{Stats: st, Thorough: rf.Thorough, Skip: skipMap(rf.Skip)}
+	x := &simkit.Ctx{Stats: st, Thorough: rf.Thorough, Skip: skipMap(rf.Skip), Beat: prog.beat}
 	v := cfg.Engine.Run(c, x)
 	if v == nil {
 		fmt.Printf("REPLAY-CLEAN property=%s file=%s\n", rf.Property, path)
